@@ -1,8 +1,189 @@
-/- Model driver for C15 (stub: no ops yet). -/
+/-
+  Model driver for C15 (color.py ColorRange, legend.py Legend).  Line protocol: see DrvCore.
+  Imports only Mathlib-free files.
+
+  Requests (lists are length-prefixed, numbers are rationals `p/q`, options are `none` or a value):
+    domain  <cont> <ncolors> <k> d*k
+    color   <cont> <nc> (r g b)*nc <k> d*k <m> v*m        -> per value `r g b` or `E:<err>`
+    colorx  (same)                                         -> per value the pre-rounding channels
+    legend  plain <V> v*V <min?> <max?> <count?> <cols?: none | nc (r g b)*nc> <contLegend> <vertical>
+                  <decimals> <ils> <ord?: none | k (key text)*k> <segH?> <segW?> <textH?>
+    legend  cat   <V> v*V <k> d*k <nc> (r g b)*nc <names?: none | k name*k> <contColors?> <contLegend>
+                  <vertical> <decimals> <ils?> <segH?> <segW?> <textH?>
+    fmt <x> <n>                                            -> `'%.nf' % x`
+-/
 import Ladybug.DrvCore
+import Ladybug.Model.Legend
+
+open Drv Col Leg
 
 namespace DrvC15
-def handle (_toks : List String) : String := "bad-op"
+
+abbrev P := StateT (List String) Option
+
+def tok : P String := fun s =>
+  match s with
+  | [] => none
+  | t :: ts => some (t, ts)
+
+def lift {α : Type} (o : Option α) : P α := fun s => o.map (·, s)
+
+def pNat : P Nat := do lift (← tok).toNat?
+def pInt : P Int := do lift (← tok).toInt?
+def pRat : P Rat := do lift (rat? (← tok))
+def pBool : P Bool := do lift (bool? (← tok))
+
+def pOpt {α : Type} (p : P α) : P (Option α) := fun s =>
+  match s with
+  | "none" :: ts => some (none, ts)
+  | _ => (p s).map fun (a, ts) => (some a, ts)
+
+def pMany {α : Type} (p : P α) : Nat → P (List α)
+  | 0 => pure []
+  | n + 1 => do
+    let a ← p
+    let as ← pMany p n
+    pure (a :: as)
+
+def pList {α : Type} (p : P α) : P (List α) := do
+  let n ← pNat
+  pMany p n
+
+def pRGB : P RGB := do
+  let r ← pInt
+  let g ← pInt
+  let b ← pInt
+  pure ⟨r, g, b⟩
+
+def pEnd : P Unit := fun s => if s.isEmpty then some ((), []) else none
+
+def showErr : Err → String
+  | .assert => "err:assert"
+  | .index => "err:index"
+  | .zero => "err:zero"
+  | .value => "err:value"
+
+def showRGB (c : RGB) : String := s!"{c.r} {c.g} {c.b}"
+
+def showRats (l : List Rat) : String := joinSp (l.map showRat)
+
+def showColors (l : List RGB) : String := " ; ".intercalate (l.map showRGB)
+
+def showE {α : Type} (f : α → String) : Except Err α → String
+  | .ok a => f a
+  | .error e => showErr e
+
+/-- Per-value result (an error of one value does not hide the others). -/
+def showColorOf (cr : ColorRange) (v : Rat) : String :=
+  match cr.color v with
+  | .ok c => showRGB c
+  | .error e => "E:" ++ (showErr e).drop 4
+
+def showExactOf (cr : ColorRange) (v : Rat) : String :=
+  match cr.colorExact v with
+  | some (x, y, z) => s!"{showRat x} {showRat y} {showRat z}"
+  | none => "-"
+
+def pColorReq : P (Bool × List RGB × List Rat × List Rat) := do
+  let cont ← pBool
+  let cols ← pList pRGB
+  let dom ← pList pRat
+  let vals ← pList pRat
+  pEnd
+  pure (cont, cols, dom, vals)
+
+def pPlain : P (List Rat × Except Err Par) := do
+  let vals ← pList pRat
+  let mn ← pOpt pRat
+  let mx ← pOpt pRat
+  let sc ← pOpt pNat
+  let cols ← pOpt (pList pRGB)
+  let cl ← pBool
+  let vert ← pBool
+  let dc ← pNat
+  let ils ← pBool
+  let ord ← pOpt (pList (do let k ← pInt; let t ← tok; pure (k, t)))
+  let sh ← pOpt pRat
+  let sw ← pOpt pRat
+  let th ← pOpt pRat
+  pEnd
+  pure (vals, Par.mkPlain mn mx sc cols cl vert dc ils ord sh sw th)
+
+def pCat : P (List Rat × Except Err Par) := do
+  let vals ← pList pRat
+  let dom ← pList pRat
+  let cols ← pList pRGB
+  let names ← pOpt (pList tok)
+  let cc ← pOpt pBool
+  let cl ← pBool
+  let vert ← pBool
+  let dc ← pNat
+  let ils ← pOpt pBool
+  let sh ← pOpt pRat
+  let sw ← pOpt pRat
+  let th ← pOpt pRat
+  pEnd
+  pure (vals, Par.mkCat dom cols names cc cl vert dc ils sh sw th)
+
+def showMesh (m : Nat × Nat × List RGB) : String :=
+  s!"{m.1} {m.2.1} : {showColors m.2.2}"
+
+def showLegend (l : Legend) : String :=
+  " | ".intercalate [
+    s!"ok {showRat l.min} {showRat l.max} {l.segCount} {showBool l.isMinDefault} {showBool l.isMaxDefault}",
+    showRats l.segmentNumbers,
+    showE showColors l.segmentColors,
+    showE showColors l.valueColors,
+    ";".intercalate l.segmentText,
+    joinSp (l.textPoints.map fun p => showRat p.1 ++ "," ++ showRat p.2),
+    toString l.segmentLength,
+    showE showMesh l.mesh,
+    showE (fun cr => showRats cr.domain ++ " : " ++ showColors cr.colors ++ " : " ++ showBool cr.continuous)
+      l.colorRange]
+
+def runLegend (r : Option ((List Rat × Except Err Par) × List String)) : String :=
+  match r with
+  | none => "bad-op"
+  | some ((_, .error e), _) => showErr e
+  | some ((vals, .ok p), _) =>
+    match Legend.make vals p with
+    | .error e => showErr e
+    | .ok l => showLegend l
+
+def handle (toks : List String) : String :=
+  match toks with
+  | "domain" :: rest =>
+    let p : P (Bool × Nat × List Rat) := do
+      let cont ← pBool
+      let n ← pNat
+      let dom ← pList pRat
+      pEnd
+      pure (cont, n, dom)
+    match p rest with
+    | some ((cont, n, dom), _) => showE (fun d => "ok " ++ showRats d) (mkDomain n dom cont)
+    | none => "bad-op"
+  | "color" :: rest =>
+    match pColorReq rest with
+    | some ((cont, cols, dom, vals), _) =>
+      match ColorRange.make cols dom cont with
+      | .error e => showErr e
+      | .ok cr => "ok " ++ showRats cr.domain ++ " | " ++ " ; ".intercalate (vals.map (showColorOf cr))
+    | none => "bad-op"
+  | "colorx" :: rest =>
+    match pColorReq rest with
+    | some ((cont, cols, dom, vals), _) =>
+      match ColorRange.make cols dom cont with
+      | .error e => showErr e
+      | .ok cr => "ok " ++ " ; ".intercalate (vals.map (showExactOf cr))
+    | none => "bad-op"
+  | "legend" :: "plain" :: rest => runLegend (pPlain rest)
+  | "legend" :: "cat" :: rest => runLegend (pCat rest)
+  | ["fmt", x, n] =>
+    match rat? x, n.toNat? with
+    | some x, some n => "ok " ++ fmtFixed x n
+    | _, _ => "bad-op"
+  | _ => "bad-op"
+
 end DrvC15
 
 def main : IO Unit := Drv.run DrvC15.handle
